@@ -5,23 +5,32 @@
 // reassembler (coverage bitmap of 8-byte units per (id, src, dst); FORGETS a datagram when it completes)
 // predicts the status of EVERY step; on REASSEMBLED the packet is compared with the expected datagram
 // (first fragment's header, offset/MF cleared, payload bytes, lengths); on NOT_FRAGMENTED it must be untouched.
+// Histories also contain the management operations remove_stream(id, src, dst) (of the datagram itself, of the mirrored
+// address pair, of other / non-existent keys) and clear_streams(); the reference forgets exactly what the documentation of
+// these calls says (ordered (id, source, destination) / everything) and keeps predicting every later status. Entry points:
+// both constructors, process(), remove_stream(), clear_streams(), IPv4ReassemblerProxy::operator() / make_ipv4_reassembler_proxy.
+// Frames: raw IP, EthernetII (padded to 60), 802.1Q, 802.1ad+802.1Q, SLL, Loopback roots parsed from bytes (optionally with
+// trailing bytes after the IP datagram) and fragments built as IP objects through the API.
 #include "verif.h"
 #include <tins/tins.h>
 #include <tins/ip_reassembler.h>
+#include <tins/loopback.h>
 #include <algorithm>
 #include <memory>
 using namespace Tins;
 using namespace vf;
 
-enum { L_RAW = 0, L_ETH, L_VLAN, L_SLL };
-static const char* LN[] = {"raw", "eth", "vlan", "sll"};
+enum { L_RAW = 0, L_ETH, L_VLAN, L_SLL, L_QINQ, L_LOOP, L_API, L_N };
+static const char* LN[] = {"raw", "eth", "vlan", "sll", "qinq", "loopback", "api"};
+static bool is_eth(int link) { return link == L_ETH || link == L_VLAN || link == L_QINQ; }
 enum { S_NOTFRAG = 0, S_FRAG = 1, S_REASM = 2 };
 static const char* SN[] = {"NOT_FRAGMENTED", "FRAGMENTED", "REASSEMBLED", "?"};
 
 struct Frag { u32 off, len; bool mf; u8 ttl, tos; };             // off/len in bytes
 struct Dgram {
     u16 id = 0; u32 src = 0, dst = 0; u8 proto = 253; bool df = false; int link = L_RAW;
-    Bytes linkhdr, opts_first, opts_rest, payload; std::vector<Frag> fr;   // fr sorted by offset; 1 entry without mf = unfragmented
+    Bytes linkhdr, opts_first, opts_rest, payload, trail; std::vector<Frag> fr;   // trail: bytes on the wire after the IP datagram (before Ethernet minimum-size padding)
+    // fr sorted by offset; 1 entry without mf = unfragmented
 };
 
 // ---- own encoder ------------------------------------------------------------------------------
@@ -39,13 +48,14 @@ static void append_ip_header(Bytes& out, const Dgram& d, const Bytes& opts, u8 t
     if (!opts.empty()) memcpy(h + 20, opts.data(), opts.size());
     put16(h + 10, (u16)~fold(sum16(h, hl)));
 }
-static void pad_link(int link, Bytes& f) { if ((link == L_ETH || link == L_VLAN) && f.size() < 60) f.resize(60, 0); }
-// the wire frame of fragment i
-static Bytes frame_of(const Dgram& d, size_t i) {
+static void pad_link(int link, Bytes& f) { if (is_eth(link) && f.size() < 60) f.resize(60, 0); }
+// the wire frame of fragment i (with_trail = false: what the parsed packet has to serialize to)
+static Bytes frame_of(const Dgram& d, size_t i, bool with_trail = true) {
     const Frag& f = d.fr[i]; Bytes out = d.linkhdr;
     u16 ff = (u16)((f.mf ? 0x2000 : 0) | (d.df ? 0x4000 : 0) | (f.off >> 3));
     append_ip_header(out, d, f.off == 0 ? d.opts_first : d.opts_rest, f.ttl, f.tos, ff, f.len);
     out.insert(out.end(), d.payload.begin() + f.off, d.payload.begin() + f.off + f.len);
+    if (with_trail) out.insert(out.end(), d.trail.begin(), d.trail.end());
     pad_link(d.link, out); return out;
 }
 // the datagram the fragments came from: first fragment's header, offset 0, MF clear, whole payload
@@ -58,13 +68,14 @@ static Bytes frame_whole(const Dgram& d) {
 
 static Bytes make_linkhdr(Rng& r, int link) {
     Bytes h;
-    if (link == L_ETH || link == L_VLAN) {
+    if (is_eth(link)) {
         h = r.bytes(12); h[0] &= 0xfe; h[6] &= 0xfe;
-        if (link == L_VLAN) { h.push_back(0x81); h.push_back(0x00); u16 tci = (u16)r.next(); h.push_back((u8)(tci >> 8)); h.push_back((u8)tci); }
+        if (link == L_QINQ) { h.push_back(0x88); h.push_back(0xa8); u16 tci = (u16)r.next(); h.push_back((u8)(tci >> 8)); h.push_back((u8)tci); }
+        if (link == L_VLAN || link == L_QINQ) { h.push_back(0x81); h.push_back(0x00); u16 tci = (u16)r.next(); h.push_back((u8)(tci >> 8)); h.push_back((u8)tci); }
         h.push_back(0x08); h.push_back(0x00);
     } else if (link == L_SLL) {
         h = {0, (u8)r.below(5), 0, 1, 0, 6}; Bytes a = r.bytes(6); h.insert(h.end(), a.begin(), a.end()); h.push_back(0); h.push_back(0); h.push_back(0x08); h.push_back(0x00);
-    }
+    } else if (link == L_LOOP) { uint32_t fam = 2 /* PF_INET, host byte order */; h.resize(4); memcpy(h.data(), &fam, 4); }
     return h;
 }
 
@@ -152,17 +163,23 @@ static void fragment(Rng& r, Dgram& d, int style, u32 maxfr) {
 }
 
 // ---- reference reassembler ---------------------------------------------------------------------
-struct MKey { u16 id; u32 src, dst; bool operator<(const MKey& o) const { return id != o.id ? id < o.id : src != o.src ? src < o.src : dst < o.dst; } };
-struct MState { std::vector<u8> cov; u32 prefix = 0; long total_units = -1; u32 nseen = 0; };
+// remove_stream(id, source, destination) forgets the pending fragments of exactly that ordered triple, clear_streams()
+// forgets everything pending (ip_reassembler.h); nothing else changes. The flags only feed counters and violation keys.
+struct MKey { u16 id; u32 src, dst; bool operator<(const MKey& o) const { return id != o.id ? id < o.id : src != o.src ? src < o.src : dst < o.dst; }
+              bool operator==(const MKey& o) const { return id == o.id && src == o.src && dst == o.dst; } MKey mirror() const { return MKey{id, dst, src}; } };
+enum { F_RESTART_REMOVE = 1, F_RESTART_CLEAR = 2, F_SURV_MIRROR = 4, F_SURV_OTHER = 8, F_SURV_ANY = 12 };
+struct MState { std::vector<u8> cov; u32 prefix = 0; long total_units = -1; u32 nseen = 0; u8 flags = 0; };
 struct Model {
-    std::map<MKey, MState> st; std::set<MKey> done;
-    bool was_dup = false, after_completion = false, last_first = false;
+    std::map<MKey, MState> st; std::set<MKey> done; std::map<MKey, u8> killed;   // killed: keys whose pending fragments an operation discarded
+    bool was_dup = false, after_completion = false, last_first = false, restarted = false; u8 last_flags = 0;
     int feed(const MKey& k, u32 off, u32 len, bool mf) {
         after_completion = done.count(k) != 0;
         bool fresh = st.find(k) == st.end();
         MState& s = st[k]; u32 u0 = off / 8, n = (len + 7) / 8;
+        restarted = false;
+        if (fresh && !killed.empty()) { auto it = killed.find(k); if (it != killed.end()) { s.flags |= it->second; killed.erase(it); restarted = true; } }
         if (s.cov.size() < u0 + n) s.cov.resize(u0 + n, 0);
-        was_dup = s.cov[u0] != 0; last_first = fresh && !mf;
+        was_dup = s.cov[u0] != 0; last_first = fresh && !mf; last_flags = s.flags;
         for (u32 i = 0; i < n; ++i) s.cov[u0 + i] = 1;
         if (!mf) s.total_units = (long)(u0 + n);
         while (s.prefix < s.cov.size() && s.cov[s.prefix]) ++s.prefix;
@@ -170,22 +187,53 @@ struct Model {
         if (s.total_units >= 0 && (long)s.prefix >= s.total_units) { st.erase(k); done.insert(k); return S_REASM; }   // complete: hand over and FORGET
         return S_FRAG;
     }
+    // returns bit 0: k was pending (now forgotten), bit 1: the mirrored triple is pending, bit 2: other datagrams are pending
+    int remove(const MKey& k) {
+        int cls = 0; MKey m = k.mirror();
+        for (auto& e : st) { if (e.first == k) continue; if (e.first == m) { e.second.flags |= F_SURV_MIRROR; cls |= 2; } else { e.second.flags |= F_SURV_OTHER; cls |= 4; } }
+        auto it = st.find(k); if (it != st.end()) { st.erase(it); killed[k] = F_RESTART_REMOVE; cls |= 1; }
+        return cls;
+    }
+    size_t clear() { size_t n = st.size(); for (auto& e : st) killed[e.first] = F_RESTART_CLEAR; st.clear(); return n; }
 };
 
 // ---- one step against the real engine --------------------------------------------------------------
-enum { EV_FRAG = 0, EV_UNFRAG = 1, EV_NONIP = 2 };
-struct Ev { int kind; int dg; int fr; };
+enum { EV_FRAG = 0, EV_UNFRAG = 1, EV_NONIP = 2, EV_REMOVE = 3, EV_CLEAR = 4 };
+struct Ev { int kind; int dg; int fr; };          // EV_REMOVE: dg = the datagram the triple is derived from, fr = OPV_*
+enum { OPV_SELF = 0, OPV_MIRROR, OPV_OTHER_ID, OPV_OTHER_DST, OPV_OTHER_SRC, OPV_SRC_TWICE, OPV_UNRELATED, OPV_N };
+static const char* OPN[] = {"self", "mirror", "id+1", "dst+1", "src+1", "src-twice", "unrelated"};
+static MKey op_key(const Dgram& d, int v) {
+    switch (v) {
+        case OPV_SELF: return MKey{d.id, d.src, d.dst}; case OPV_MIRROR: return MKey{d.id, d.dst, d.src}; case OPV_OTHER_ID: return MKey{(u16)(d.id + 1), d.src, d.dst};
+        case OPV_OTHER_DST: return MKey{d.id, d.src, d.dst + 1}; case OPV_OTHER_SRC: return MKey{d.id, d.src + 1, d.dst}; case OPV_SRC_TWICE: return MKey{d.id, d.src, d.src};
+        default: return MKey{(u16)(d.id ^ 0x8000), d.dst + 7, d.src + 13};
+    }
+}
+// the functor behind IPv4ReassemblerProxy: records what was forwarded
+struct Fwd { PDU* seen = nullptr; int calls = 0; bool ret = false; };
+struct Functor { Fwd* f; bool operator()(PDU& p) { f->seen = &p; ++f->calls; return f->ret; } };
+typedef IPv4ReassemblerProxy<Functor> Proxy;
 struct World {
-    const std::vector<Dgram>* dgs = nullptr; IPv4Reassembler reasm; Model model; bool reversed = false; u64 steps = 0;
+    const std::vector<Dgram>* dgs = nullptr; IPv4Reassembler reasm; std::unique_ptr<Proxy> proxy; Fwd fwd; Model model, shadow; bool reversed = false, has_ops = false; u64 steps = 0, ops_done = 0;
     const std::string* ctx = nullptr; const std::vector<Ev>* order = nullptr; const char* note = "";      // rendered only when a violation is reported
+    explicit World(bool technique = false) : reasm(technique ? IPv4Reassembler(IPv4Reassembler::NONE) : IPv4Reassembler()) {}
+    void use_proxy() { proxy.reset(new Proxy(make_ipv4_reassembler_proxy(Functor{&fwd}))); }   // packets go through IPv4ReassemblerProxy::operator() instead of process()
     std::string sfx() const { return reversed ? "/reversed-pair" : ""; }
 };
 // hot counters are kept in an array and flushed into vf::cnt once per case
-enum { C_STEPS, C_STATUS, C_UNTOUCHED, C_REASM, C_FRAGSER, C_LASTFIRST, C_BYFIRST, C_BYLAST, C_BYMID, C_COMPL_PENDING, C_FRAG_PENDING, C_UNFRAG, C_NONIP, C_UNFRAG_PENDINGKEY, C_SEQ, C_CLS0, C_N = C_CLS0 + 8 };
+enum { C_STEPS, C_STATUS, C_UNTOUCHED, C_REASM, C_FRAGSER, C_LASTFIRST, C_BYFIRST, C_BYLAST, C_BYMID, C_COMPL_PENDING, C_FRAG_PENDING, C_UNFRAG, C_NONIP, C_UNFRAG_PENDINGKEY, C_SEQ,
+       C_RM, C_RM_SELF, C_RM_SELF_OTHERS, C_RM_MIRRORED, C_RM_OTHER, C_RM_NOTHING, C_CLR, C_CLR_PENDING, C_CLR_MANY, C_STATUS_AFTER_OP, C_RESTART_RM, C_RESTART_CLR,
+       C_COMPL_AFTER_SELF, C_COMPL_AFTER_CLEAR, C_COMPL_AFTER_MIRROR, C_COMPL_AFTER_UNREL, C_FRAG_SURVIVOR, C_PREVENTED, C_OPSEQ, C_PROXY_FWD, C_PROXY_HELD, C_PADDED, C_PADDED_LAST, C_TRAIL, C_CTOR_TECH,
+       C_CLS0, C_N = C_CLS0 + 8 };
 static u64 ctr[C_N];
 static const char* ctr_name[C_N] = {"steps", "checks:status", "checks:untouched", "checks:reassembled-content", "checks:fragment-still-serializable", "ev:last-fragment-arrives-first",
     "ev:completed-by-first-fragment", "ev:completed-by-last-fragment", "ev:completed-by-middle-fragment", "ev:completion-while-others-pending", "ev:fragment-while-others-pending",
     "ev:unfragmented", "ev:non-ip", "ev:unfragmented-with-key-of-pending-datagram", "exhaustive_sequences",
+    "op:remove_stream", "op:remove_stream:self", "op:remove_stream:self/others-pending", "op:remove_stream:mirrored", "op:remove_stream:other", "op:remove_stream:nothing-pending",
+    "op:clear_streams", "op:clear_streams/something-pending", "op:clear_streams/several-pending", "checks:status-after-management-operation",
+    "ev:fragment-restarts-datagram-after-remove_stream", "ev:fragment-restarts-datagram-after-clear_streams",
+    "completed-after-self-remove", "completed-after-clear_streams", "completed-after-mirrored-remove", "completed-after-unrelated-remove", "ev:fragment-of-datagram-that-survived-a-remove",
+    "ev:completion-prevented-by-operation", "exhaustive_op_sequences", "proxy:forwarded", "proxy:held-back", "shape:fragment-frame-padded-to-60", "shape:last-fragment-frame-padded-to-60", "shape:fragment-frame-with-trailing-bytes", "ctor:technique",
     "ev:new-fragment", "ev:new-fragment/completes", "ev:duplicate", "ev:duplicate/completes", "ev:new-fragment-after-completion", "ev:new-fragment-after-completion/completes",
     "ev:duplicate-after-completion", "ev:duplicate-after-completion/completes"};
 static const char* cls_name[4] = {"new-fragment", "duplicate", "new-fragment-after-completion", "duplicate-after-completion"};
@@ -200,11 +248,18 @@ static Bytes nonip_frame(int which) {
     return f;
 }
 static PDU* parse(int link, const ExactBuf& b) {
-    switch (link) { case L_RAW: return new IP(b.data(), (uint32_t)b.n); case L_SLL: return new SLL(b.data(), (uint32_t)b.n); default: return new EthernetII(b.data(), (uint32_t)b.n); }
+    switch (link) { case L_RAW: return new IP(b.data(), (uint32_t)b.n); case L_SLL: return new SLL(b.data(), (uint32_t)b.n); case L_LOOP: return new Loopback(b.data(), (uint32_t)b.n); default: return new EthernetII(b.data(), (uint32_t)b.n); }
+}
+// fragment i as an IP object made through the API (no wire bytes involved); the payload is a RawPDU, as the parser would make it
+static PDU* build_api(const Dgram& d, size_t i) {
+    const Frag& f = d.fr[i]; std::unique_ptr<IP> ip(new IP(IPv4Address(ipstr(d.dst)), IPv4Address(ipstr(d.src))));
+    ip->id(d.id); ip->ttl(f.ttl); ip->tos(f.tos); ip->protocol(d.proto); ip->flags((IP::Flags)((f.mf ? IP::MORE_FRAGMENTS : 0) | (d.df ? IP::DONT_FRAGMENT : 0))); ip->fragment_offset((u16)(f.off / 8));
+    ip->inner_pdu(new RawPDU(d.payload.data() + f.off, f.len));
+    return ip.release();
 }
 static int tins_status(IPv4Reassembler::PacketStatus s) { return s == IPv4Reassembler::NOT_FRAGMENTED ? S_NOTFRAG : s == IPv4Reassembler::FRAGMENTED ? S_FRAG : s == IPv4Reassembler::REASSEMBLED ? S_REASM : 3; }
 static std::string show_order(const std::vector<Ev>& evs, size_t cap);
-static std::string evstr(const Ev& e) { return e.kind == EV_NONIP ? "N" + std::to_string(e.fr) : e.kind == EV_UNFRAG ? "U" + std::to_string(e.dg) : std::to_string(e.dg) + "." + std::to_string(e.fr); }
+static std::string evstr(const Ev& e) { return e.kind == EV_CLEAR ? std::string("CLEAR") : e.kind == EV_REMOVE ? "RM(" + std::to_string(e.dg) + ":" + OPN[e.fr] + ")" : e.kind == EV_NONIP ? "N" + std::to_string(e.fr) : e.kind == EV_UNFRAG ? "U" + std::to_string(e.dg) : std::to_string(e.dg) + "." + std::to_string(e.fr); }
 
 static std::string where_of(const World& w, const Ev& e) {
     return "step #" + std::to_string(w.steps - 1) + " event " + evstr(e) + " of " + (w.ctx ? w.ctx->substr(0, 3000) : std::string()) + (w.order ? " order=" + show_order(*w.order, 600) : std::string()) + w.note;
@@ -249,38 +304,83 @@ static bool check_reassembled(World& w, PDU& pdu, const Dgram& d, const Ev& ev) 
     return ok;
 }
 
+// a management operation: applied to the reference and to the real reassembler; its effect is only observable through later packets
+static bool step_op(World& w, const Ev& e) {
+    ++w.steps; const char* what = e.kind == EV_CLEAR ? "clear_streams" : "remove_stream";
+    try {
+        if (e.kind == EV_CLEAR) {
+            size_t n = w.model.clear(); ++ctr[C_CLR]; if (n) ++ctr[C_CLR_PENDING]; if (n >= 2) ++ctr[C_CLR_MANY];
+            w.reasm.clear_streams();
+        } else {
+            MKey k = op_key((*w.dgs)[e.dg], e.fr); int cls = w.model.remove(k);
+            ++ctr[C_RM]; if (cls & 1) { ++ctr[C_RM_SELF]; if (cls & 6) ++ctr[C_RM_SELF_OTHERS]; } if (cls & 2) ++ctr[C_RM_MIRRORED]; if (!(cls & 1) && (cls & 4)) ++ctr[C_RM_OTHER]; if (!cls) ++ctr[C_RM_NOTHING];
+            w.reasm.remove_stream(k.id, IPv4Address(ipstr(k.src)), IPv4Address(ipstr(k.dst)));
+        }
+    } catch (...) {
+        violation(std::string("exception/") + what + "/" + current_exception_type() + w.sfx(), std::string("libtins threw during ") + what + "() :: " + where_of(w, e));
+        return false;
+    }
+    ++w.ops_done; return true;
+}
+static const char* opctx_of(u8 fl) {
+    return fl & F_RESTART_REMOVE ? "/after-remove_stream-of-this-datagram" : fl & F_RESTART_CLEAR ? "/after-clear_streams" : fl & F_SURV_MIRROR ? "/after-remove_stream-of-mirrored-pair" : fl & F_SURV_OTHER ? "/after-remove_stream-of-other-datagram" : "";
+}
+
 // returns false when the case must stop (a violation was reported; states may have diverged)
 static bool step(World& w, const Ev& e) {
+    if (e.kind == EV_REMOVE || e.kind == EV_CLEAR) return step_op(w, e);
     const Dgram* d = e.kind == EV_NONIP ? nullptr : &(*w.dgs)[e.dg];
-    Bytes frame = d ? frame_of(*d, e.fr) : nonip_frame(e.fr);
     int link = d ? d->link : L_ETH;
+    Bytes frame; if (link != L_API) frame = d ? frame_of(*d, e.fr) : nonip_frame(e.fr);
     ++w.steps; ++ctr[C_STEPS];
     ExactBuf eb(frame); std::unique_ptr<PDU> pdu; const char* phase = "parse";
     try {
-        pdu.reset(parse(link, eb));
-        int exp = S_NOTFRAG; const char* cls = e.kind == EV_NONIP ? "non-ip" : "unfragmented";
+        pdu.reset(link == L_API ? build_api(*d, e.fr) : parse(link, eb));
+        int exp = S_NOTFRAG; const char* cls = e.kind == EV_NONIP ? "non-ip" : "unfragmented"; const char* opctx = "";
         if (e.kind == EV_FRAG) {
-            const Frag& f = d->fr[e.fr];
-            exp = w.model.feed(MKey{d->id, d->src, d->dst}, f.off, f.len, f.mf);
+            const Frag& f = d->fr[e.fr]; MKey mk{d->id, d->src, d->dst};
+            exp = w.model.feed(mk, f.off, f.len, f.mf);
             int ci = (w.model.was_dup ? 1 : 0) + (w.model.after_completion ? 2 : 0); cls = cls_name[ci];
             ++ctr[C_CLS0 + ci * 2 + (exp == S_REASM ? 1 : 0)];
             if (w.model.last_first) ++ctr[C_LASTFIRST];
             if (exp == S_REASM) { ++ctr[f.off == 0 ? C_BYFIRST : !f.mf ? C_BYLAST : C_BYMID]; if (!w.model.st.empty()) ++ctr[C_COMPL_PENDING]; }
             else if (w.model.st.size() >= 2) ++ctr[C_FRAG_PENDING];
+            if (w.has_ops) {
+                u8 fl = w.model.last_flags; opctx = opctx_of(fl);
+                if (w.model.restarted) ++ctr[fl & F_RESTART_REMOVE ? C_RESTART_RM : C_RESTART_CLR];
+                if (exp == S_REASM) { if (fl & F_RESTART_REMOVE) ++ctr[C_COMPL_AFTER_SELF]; if (fl & F_RESTART_CLEAR) ++ctr[C_COMPL_AFTER_CLEAR]; if (fl & F_SURV_MIRROR) ++ctr[C_COMPL_AFTER_MIRROR]; if (fl & F_SURV_OTHER) ++ctr[C_COMPL_AFTER_UNREL]; }
+                else if (fl & F_SURV_ANY) ++ctr[C_FRAG_SURVIVOR];
+                if (w.shadow.feed(mk, f.off, f.len, f.mf) == S_REASM && exp == S_FRAG) ++ctr[C_PREVENTED];   // the same history without the operations would complete here
+            }
+            if (is_eth(link) && d->linkhdr.size() + 20 + (f.off == 0 ? d->opts_first : d->opts_rest).size() + f.len + d->trail.size() < 60) { ++ctr[C_PADDED]; if (!f.mf) ++ctr[C_PADDED_LAST]; }
+            if (!d->trail.empty()) ++ctr[C_TRAIL];
         } else { ++ctr[d ? C_UNFRAG : C_NONIP]; if (d && !w.model.st.empty() && w.model.st.count(MKey{d->id, d->src, d->dst})) ++ctr[C_UNFRAG_PENDINGKEY]; }
         Bytes before; if (exp == S_NOTFRAG) { phase = "serialize"; before = pdu->serialize(); }
         phase = "process";
-        int got = tins_status(w.reasm.process(*pdu));
-        ++ctr[C_STATUS];
+        int got; const char* gotname = nullptr;
+        if (w.proxy) {   // documented: returns true when the packet was not forwarded, otherwise what the functor returned
+            w.fwd.calls = 0; w.fwd.seen = nullptr; w.fwd.ret = (mix(w.steps, 77) & 1) != 0;
+            bool rv = (*w.proxy)(*pdu);
+            if (w.fwd.calls == 0) { got = S_FRAG; ++ctr[C_PROXY_HELD]; if (!rv) { violation("proxy/held-back-but-returned-false", "IPv4ReassemblerProxy did not forward the packet and returned false :: " + where_of(w, e)); return false; } }
+            else {
+                ++ctr[C_PROXY_FWD];
+                if (w.fwd.calls != 1 || w.fwd.seen != pdu.get()) { violation("proxy/forwarded-differently", "functor called " + std::to_string(w.fwd.calls) + " times / with another object :: " + where_of(w, e)); return false; }
+                if (rv != w.fwd.ret) { violation("proxy/return-value", "IPv4ReassemblerProxy returned " + std::to_string(rv) + ", the functor returned " + std::to_string(w.fwd.ret) + " :: " + where_of(w, e)); return false; }
+                got = exp == S_FRAG ? 3 : exp; gotname = "FORWARDED";      // NOT_FRAGMENTED and REASSEMBLED are told apart by the content checks below
+            }
+        } else got = tins_status(w.reasm.process(*pdu));
+        ++ctr[C_STATUS]; if (w.ops_done) ++ctr[C_STATUS_AFTER_OP];
         if (got != exp) {
-            violation(std::string("status/expected-") + SN[exp] + "/got-" + SN[got] + "/" + cls + w.sfx(), std::string("process() returned ") + SN[got] + ", the reference reassembler says " + SN[exp] + " (" + cls + ") :: " + where_of(w, e));
+            if (!gotname || got != 3) gotname = SN[got];
+            violation(std::string("status/expected-") + SN[exp] + "/got-" + gotname + "/" + cls + opctx + w.sfx(), std::string(w.proxy ? "the proxy reported " : "process() returned ") + gotname + ", the reference reassembler says " + SN[exp] + " (" + cls + opctx + ") :: " + where_of(w, e));
             return false;
         }
         phase = "serialize";
         if (exp == S_NOTFRAG) {
             Bytes after = pdu->serialize();
             if (after != before) { violation(std::string("unfragmented/altered/") + cls, "serialization before and after process() differ (" + std::to_string(before.size()) + " vs " + std::to_string(after.size()) + " bytes) :: " + where_of(w, e)); return false; }
-            if (d && after != frame) { violation("unfragmented/differs-from-wire/" + std::string(LN[link]), "unfragmented packet does not serialize to its wire bytes: " + hex(after, 80) + " vs " + hex(frame, 80) + " :: " + where_of(w, e)); return false; }
+            if (d) { Bytes wire = link == L_API || !d->trail.empty() ? frame_of(*d, e.fr, false) : frame;
+                     if (after != wire) { violation("unfragmented/differs-from-wire/" + std::string(LN[link]), "unfragmented packet does not serialize to its wire bytes: " + hex(after, 80) + " vs " + hex(wire, 80) + " :: " + where_of(w, e)); return false; } }
             ++ctr[C_UNTOUCHED];
         } else if (exp == S_REASM) {
             if (!check_reassembled(w, *pdu, *d, e)) return false;
@@ -305,7 +405,8 @@ static std::string show_order(const std::vector<Ev>& evs, size_t cap) { std::str
 static Dgram make_dgram(Rng& r, u16 id, u32 src, u32 dst, int link, size_t P, bool opts) {
     static const u8 protos[] = {17, 17, 6, 6, 1, 1, 253, 253, 47, 89, 132, 255, 0, 254};
     Dgram d; d.id = id; d.src = src; d.dst = dst; d.link = link; d.linkhdr = make_linkhdr(r, link); d.proto = protos[r.below(sizeof protos)];
-    if (opts) gen_ip_options(r, d.opts_first, d.opts_rest);
+    if (opts && link != L_API) gen_ip_options(r, d.opts_first, d.opts_rest);
+    if (link != L_API && r.chance(1, 6)) { d.trail = r.bytes(1 + r.below(12)); if (r.chance(1, 4)) std::fill(d.trail.begin(), d.trail.end(), 0); }   // e.g. a captured FCS / a trailer / padding of a smaller minimum size
     size_t maxP = 65535 - 20 - d.opts_first.size(); if (P > maxP) P = maxP;
     d.payload = make_upper(r, d.proto, P, src, dst);
     return d;
@@ -340,8 +441,10 @@ static std::vector<int> arrival(Rng& r, size_t m) {
     return o;
 }
 
+static int pick_link(Rng& r) { static const int L[] = {L_RAW, L_ETH, L_ETH, L_VLAN, L_SLL, L_QINQ, L_LOOP, L_API}; return L[r.below(8)]; }
 static void run_random(Rng& r, bool thorough, bool allow_reversed) {
-    World w; std::vector<Dgram> dgs; w.dgs = &dgs; w.reversed = allow_reversed && r.chance(1, 25);
+    bool technique = r.chance(1, 3), use_proxy = r.chance(1, 12), with_ops = !use_proxy && r.chance(2, 5);
+    World w(technique); std::vector<Dgram> dgs; w.dgs = &dgs; w.reversed = allow_reversed && r.chance(1, 25); w.has_ops = with_ops; if (use_proxy) w.use_proxy();
     u32 kl; switch (r.below(10)) { case 0: case 1: kl = 1; break; case 2: case 3: case 4: kl = 2; break; case 5: case 6: kl = 3; break; case 7: kl = 4; break; default: kl = 2 + r.below(7); }
     if (w.reversed && kl < 2) kl = 2;
     // address and id pools: few values so that lanes share ids and addresses
@@ -373,12 +476,12 @@ static void run_random(Rng& r, bool thorough, bool allow_reversed) {
     }
     // lanes: chains of datagrams re-using the lane's key one after the other
     u32 big_left = thorough ? 3 : 2; bool tiny_storm = r.chance(1, thorough ? 150 : 400);
-    std::vector<std::vector<Ev>> lanes;
+    std::vector<std::vector<Ev>> lanes; std::vector<int> last_of_lane;   // last_of_lane: datagrams whose key is not used again afterwards (may be retransmitted at the end)
     for (auto& k : keys) {
         std::vector<Ev> lane; u32 chain = r.chance(7, 10) ? 1 : 2 + r.below(2);
         for (u32 c = 0; c < chain; ++c) {
             bool big = big_left && r.chance(1, 6); size_t P = pick_size(r, big, thorough); if (P > 3000 && big_left) --big_left;
-            int link = (int)r.below(4);
+            int link = pick_link(r);
             Dgram d = make_dgram(r, k.id, k.src, k.dst, link, P, r.chance(1, 4));
             int style = (int)r.below(6); if (style == 5) style = 0;
             u32 maxfr = 64;
@@ -400,8 +503,14 @@ static void run_random(Rng& r, bool thorough, bool allow_reversed) {
                 for (size_t i = 0; i < ord.size(); ++i) if (tmp.feed(mk, d.fr[ord[i]].off, d.fr[ord[i]].len, d.fr[ord[i]].mf) == S_REASM) lastc = i;
                 ord.resize(lastc + 1); cnt("shape:key-reused-after-completion");
             }
-            int di = (int)dgs.size(); dgs.push_back(std::move(d));
+            int di = (int)dgs.size(); dgs.push_back(std::move(d)); size_t lane0 = lane.size();
             for (int f : ord) lane.push_back(Ev{EV_FRAG, di, f});
+            if (with_ops && r.chance(1, 4)) {   // the application gives up on this datagram somewhere in between; often the sender then transmits everything again
+                lane.insert(lane.begin() + lane0 + r.below((u32)(lane.size() - lane0) + 1), Ev{EV_REMOVE, di, OPV_SELF});
+                if (r.chance(2, 3) && m <= 200) for (int f : arrival(r, m)) lane.push_back(Ev{EV_FRAG, di, f});
+            }
+            if (with_ops && c + 1 < chain) lane.push_back(Ev{EV_REMOVE, di, OPV_SELF});   // whatever is still pending under this key is dropped before the key is used again
+            if (c + 1 == chain) last_of_lane.push_back(di);
         }
         if (!lane.empty()) lanes.push_back(std::move(lane));
     }
@@ -416,6 +525,30 @@ static void run_random(Rng& r, bool thorough, bool allow_reversed) {
         else { if (pos[cur] >= lanes[cur].size() || r.chance(1, 4)) { do cur = r.below((u32)lanes.size()); while (pos[cur] >= lanes[cur].size()); } }            // bursts
         evs.push_back(lanes[cur][pos[cur]++]); --left;
     }
+    // management operations anywhere in between
+    if (with_ops) {
+        std::vector<int> fragd; for (size_t i = 0; i < dgs.size(); ++i) fragd.push_back((int)i);
+        std::vector<int> again;
+        for (u32 i = 0, n = 1 + r.below(4); i < n; ++i) {
+            Ev e; int target = -1;
+            if (r.chance(1, 4)) { e = Ev{EV_CLEAR, -1, 0}; for (int di : last_of_lane) if (r.chance(1, 2)) again.push_back(di); }
+            else {
+                int v; switch (r.below(8)) { case 0: case 1: v = OPV_SELF; break; case 2: case 3: case 4: v = OPV_MIRROR; break; default: v = OPV_OTHER_ID + (int)r.below(OPV_N - OPV_OTHER_ID); }
+                target = r.pick(fragd); e = Ev{EV_REMOVE, target, v};
+                if (v == OPV_SELF && r.chance(1, 2) && std::find(last_of_lane.begin(), last_of_lane.end(), target) != last_of_lane.end()) again.push_back(target);
+            }
+            // mostly while the target still has fragments to come
+            size_t lo = 0, hi = evs.size();
+            if (target >= 0 && r.chance(3, 4)) { size_t first = evs.size(), last = 0; for (size_t j = 0; j < evs.size(); ++j) if (evs[j].kind == EV_FRAG && evs[j].dg == target) { if (first == evs.size()) first = j; last = j; } if (first < last) { lo = first + 1; hi = last; } }
+            evs.insert(evs.begin() + lo + r.below((u32)(hi - lo) + 1), e);
+        }
+        // a complete retransmission of some datagrams whose fragments were dropped (their key is not in use by a later datagram)
+        std::sort(again.begin(), again.end()); again.erase(std::unique(again.begin(), again.end()), again.end());
+        std::vector<std::vector<int>> re; size_t total = 0; for (int di : again) if (dgs[di].fr.size() <= 200) { re.push_back(arrival(r, dgs[di].fr.size())); total += re.back().size(); } else re.push_back({});
+        std::vector<size_t> rp(re.size(), 0);
+        while (total) { size_t x = r.below64(total), c = 0; for (;; ++c) { size_t rem = re[c].size() - rp[c]; if (x < rem) break; x -= rem; } evs.push_back(Ev{EV_FRAG, again[c], re[c][rp[c]++]}); --total; }
+        if (!again.empty()) cnt("shape:retransmission-after-operation", again.size());
+    }
     // unfragmented and non-IP packets in between
     for (u32 i = 0, n = r.below(5); i < n; ++i) {
         Ev e;
@@ -423,20 +556,22 @@ static void run_random(Rng& r, bool thorough, bool allow_reversed) {
         else {
             bool share = r.chance(1, 2); const LaneKey& k = keys[r.below((u32)keys.size())];
             size_t P = r.chance(1, 12) ? 1 + r.below(8) : r.chance(1, 10) ? 1400 + r.below(2000) : 8 + r.below(200);
-            Dgram d = make_dgram(r, share ? k.id : (u16)r.next(), share || r.chance(1, 2) ? k.src : (u32)r.next() | 1, share || r.chance(1, 2) ? k.dst : (u32)r.next() | 1, (int)r.below(4), P, r.chance(1, 5));
+            Dgram d = make_dgram(r, share ? k.id : (u16)r.next(), share || r.chance(1, 2) ? k.src : (u32)r.next() | 1, share || r.chance(1, 2) ? k.dst : (u32)r.next() | 1, pick_link(r), P, r.chance(1, 5));
             d.df = r.chance(1, 2); d.fr.push_back({0, (u32)d.payload.size(), false, (u8)(1 + r.below(255)), r.byte()});
             if (d.df) cnt("shape:unfragmented-with-DF");
             e = Ev{EV_UNFRAG, (int)dgs.size(), 0}; dgs.push_back(std::move(d));
         }
         evs.insert(evs.begin() + r.below((u32)evs.size() + 1), e);
     }
-    std::string desc = w.reversed ? "kf=reversed-pair " : ""; u64 sg = 0;
+    std::string desc = w.reversed ? "kf=reversed-pair " : ""; u64 sg = (technique ? 1 : 0) + (use_proxy ? 2 : 0);
+    if (technique) desc += "ctor=IPv4Reassembler(NONE) "; if (use_proxy) desc += "entry=IPv4ReassemblerProxy ";
     for (size_t i = 0; i < dgs.size(); ++i) { if (desc.size() < 30000) desc += show_dgram(dgs[i], i) + " "; const Dgram& d = dgs[i]; sg = mix(sg, mix(((u64)d.id << 40) ^ ((u64)d.proto << 32) ^ d.payload.size(), ((u64)d.src << 32) | d.dst)); for (auto& f : d.fr) sg = mix(sg, ((u64)f.off << 20) | f.len); }
     for (auto& e : evs) sg = mix(sg, ((u64)(e.kind + 1) << 40) ^ ((u64)(e.dg + 1) << 20) ^ (u64)e.fr);
     std::string full = desc + "order=" + show_order(evs, 600);
     describe_case(full); sig(sg); w.ctx = &desc; w.order = &evs;
     if (want_sample() && evs.size() <= 14) sample(full);
     cnt("histories"); if (w.reversed) cnt("histories:reversed-pair");
+    cnt(technique ? "ctor:technique" : "ctor:default"); if (use_proxy) cnt("histories:through-proxy"); if (with_ops) cnt("histories:with-management-operations");
     for (auto& e : evs) if (!step(w, e)) return;
     if (!w.model.st.empty()) cnt("end:datagrams-left-incomplete-by-stale-duplicates", w.model.st.size());
 }
@@ -451,8 +586,8 @@ static std::vector<std::vector<int>> compositions(int n) {
 static bool exh_deep() { return st().a.tier == "thorough"; }
 struct ExhTable { std::vector<std::pair<int, std::vector<int>>> single; ExhTable() { for (int n = 2; n <= (exh_deep() ? 6 : 5); ++n) for (auto& c : compositions(n)) single.push_back({n, c}); } };
 static const ExhTable& exh_table() { static ExhTable t; return t; }
-static const int EXH_COMBOS = 32, EXH_PAIR_CASES = 7 * 4 * 2;
-static long exh_total() { return (long)exh_table().single.size() * EXH_COMBOS + EXH_PAIR_CASES; }
+static const int EXH_COMBOS = 32, EXH_PAIR_CASES = 7 * 4 * 2, EXH_OP_CASES = 7 * 4;
+static long exh_total() { return (long)exh_table().single.size() * EXH_COMBOS + EXH_PAIR_CASES + EXH_OP_CASES; }
 
 // every distinct order of the multiset `items`; the `shared` world persists over every second sequence
 static bool run_all_orders(std::vector<int> items, const std::vector<Dgram>& dgs, World& shared, const std::string& ctx, bool reversed, u64& seqno) {
@@ -461,9 +596,51 @@ static bool run_all_orders(std::vector<int> items, const std::vector<Dgram>& dgs
         u64 sg = base; for (size_t i = 0; i < items.size(); ++i) { evs[i] = Ev{EV_FRAG, items[i] >> 8, items[i] & 255}; sg = mix(sg, (u64)items[i] + 1); }
         bool use_shared = (seqno++ & 1) != 0; sig(sg); ++ctr[C_SEQ];
         if (use_shared) { shared.ctx = &ctx; shared.order = &evs; shared.note = " (reassembler shared with the preceding sequences of this case)"; for (auto& e : evs) if (!step(shared, e)) return false; }
-        else { World w; w.dgs = &dgs; w.reversed = reversed; w.ctx = &ctx; w.order = &evs; for (auto& e : evs) if (!step(w, e)) return false; }
+        else { bool technique = (seqno & 2) != 0; if (technique) ++ctr[C_CTOR_TECH]; World w(technique); w.dgs = &dgs; w.reversed = reversed; w.ctx = &ctx; w.order = &evs; for (auto& e : evs) if (!step(w, e)) return false; }
     } while (std::next_permutation(items.begin(), items.end()));
     return true;
+}
+
+
+// two datagrams of mx / my 8-byte fragments in one of 7 id/address relations
+static const u32 PA = 0x0a000001u, PB = 0x0a000002u, PC = 0x0a000003u, PD = 0xc0000201u;
+static const struct { u16 idy; u32 sy, dy; const char* name; } PAIR_REL[7] = {{7, PA, PC, "same-id-share-src"}, {7, PC, PB, "same-id-share-dst"}, {7, PB, PC, "same-id-dst-is-other-src"}, {7, PC, PA, "same-id-src-is-other-dst"},
+                                                                             {7, PC, PD, "same-id-disjoint"}, {8, PA, PB, "same-pair-different-id"}, {7, PB, PA, "same-id-reversed-pair"}};
+static void make_pair_case(Rng& r, int rel, int mx, int my, int link, std::vector<Dgram>& dgs) {
+    auto mk = [&](u16 id, u32 s, u32 t, int m, u8 proto) { Dgram d; d.id = id; d.src = s; d.dst = t; d.link = link; d.linkhdr = make_linkhdr(r, link); d.proto = proto; d.payload = make_upper(r, d.proto, (size_t)m * 8, s, t);
+                                                            for (int i = 0; i < m; ++i) d.fr.push_back({(u32)i * 8, 8, i + 1 < m, (u8)(60 + i), 0}); return d; };
+    dgs.push_back(mk(7, PA, PB, mx, 17)); dgs.push_back(mk(PAIR_REL[rel].idy, PAIR_REL[rel].sy, PAIR_REL[rel].dy, my, mx == my ? 17 : 1));
+}
+// every interleaving of the two datagrams x one management operation at every position; when the operation left something
+// forgotten or pending, every fragment is sent once more afterwards (the forgotten datagram completes only from a whole new set)
+static void run_exh_ops(long p, Rng& r, bool allow_reversed) {
+    if (p >= EXH_OP_CASES) return;
+    int rel = (int)(p % 7), mx = 2 + (int)((p / 7) & 1), my = 2 + (int)((p / 14) & 1); static const int links[7] = {L_RAW, L_ETH, L_LOOP, L_API, L_SLL, L_VLAN, L_QINQ}; int link = links[(p / 7 + rel) % 7];
+    if (rel == 6 && !allow_reversed) return;
+    std::vector<Dgram> dgs; make_pair_case(r, rel, mx, my, link, dgs); bool reversed = rel == 6;
+    std::string ctx = std::string(reversed ? "kf=reversed-pair " : "") + "exhaustive operations " + PAIR_REL[rel].name + " " + show_dgram(dgs[0], 0) + " " + show_dgram(dgs[1], 1); describe_case(ctx);
+    cnt(std::string("rel:exhaustive-operations/") + PAIR_REL[rel].name);
+    const Ev ops[7] = {{EV_REMOVE, 0, OPV_SELF}, {EV_REMOVE, 1, OPV_SELF}, {EV_REMOVE, 0, OPV_MIRROR}, {EV_REMOVE, 1, OPV_MIRROR}, {EV_REMOVE, 0, OPV_OTHER_ID}, {EV_REMOVE, 1, OPV_UNRELATED}, {EV_CLEAR, -1, 0}};
+    std::vector<int> items; for (int i = 0; i < mx; ++i) items.push_back(i); for (int i = 0; i < my; ++i) items.push_back(256 + i);
+    std::vector<Ev> tail; for (int i = 0; i < std::max(mx, my); ++i) { if (i < mx) tail.push_back(Ev{EV_FRAG, 0, i}); if (i < my) tail.push_back(Ev{EV_FRAG, 1, i}); }
+    World shared(true); shared.dgs = &dgs; shared.reversed = reversed; shared.has_ops = true; shared.ctx = &ctx; shared.note = " (reassembler shared with the preceding sequences of this case, clear_streams() before each)";
+    u64 base = fnv(ctx), seqno = 0; std::vector<Ev> evs; size_t n = items.size();
+    do {
+        for (size_t pos = 0; pos <= n; ++pos) for (int o = 0; o < 7; ++o) {
+            evs.clear(); u64 sg = mix(base, pos * 8 + o);
+            for (size_t i = 0; i < n; ++i) { if (i == pos) evs.push_back(ops[o]); evs.push_back(Ev{EV_FRAG, items[i] >> 8, items[i] & 255}); sg = mix(sg, (u64)items[i] + 1); }
+            if (pos == n) evs.push_back(ops[o]);
+            sig(sg); ++ctr[C_OPSEQ];
+            bool use_shared = (seqno++ & 1) != 0, technique = (seqno & 2) != 0; World fresh(technique); if (!use_shared && technique) ++ctr[C_CTOR_TECH];
+            World& w = use_shared ? shared : fresh;
+            if (use_shared) { shared.order = nullptr; if (!step(shared, Ev{EV_CLEAR, -1, 0})) return; }
+            else { fresh.dgs = &dgs; fresh.reversed = reversed; fresh.has_ops = true; fresh.ctx = &ctx; }
+            w.order = &evs;
+            for (size_t i = 0; i < evs.size(); ++i) if (!step(w, evs[i])) return;
+            if (!w.model.killed.empty() || !w.model.st.empty()) { size_t from = evs.size(); evs.insert(evs.end(), tail.begin(), tail.end()); for (size_t i = from; i < evs.size(); ++i) if (!step(w, evs[i])) return; }
+        }
+    } while (std::next_permutation(items.begin(), items.end()));
+    cnt("exhaustive_cases_completed"); cnt("exhaustive_op_cases_completed");
 }
 
 static void run_exhaustive(long idx, Rng& r, bool allow_reversed) {
@@ -493,18 +670,13 @@ static void run_exhaustive(long idx, Rng& r, bool allow_reversed) {
         cnt("exhaustive_cases_completed"); cnt("exhaustive_partitions_x_variants");
         return;
     }
-    long p = idx - nsingle; if (p >= EXH_PAIR_CASES) return;
+    long p = idx - nsingle; if (p >= EXH_PAIR_CASES) { run_exh_ops(p - EXH_PAIR_CASES, r, allow_reversed); return; }
     int rel = (int)(p % 7); int mx = 2 + (int)((p / 7) & 1), my = 2 + (int)((p / 14) & 1); int link = (p / 28) ? L_ETH : L_RAW;
     if (rel == 6 && !allow_reversed) return;
-    u32 A = 0x0a000001u, B = 0x0a000002u, C = 0x0a000003u, Dd = 0xc0000201u;
-    struct { u16 idy; u32 sy, dy; const char* name; } R[7] = {{7, A, C, "same-id-share-src"}, {7, C, B, "same-id-share-dst"}, {7, B, C, "same-id-dst-is-other-src"}, {7, C, A, "same-id-src-is-other-dst"},
-                                                                 {7, C, Dd, "same-id-disjoint"}, {8, A, B, "same-pair-different-id"}, {7, B, A, "same-id-reversed-pair"}};
-    auto mk = [&](u16 id, u32 s, u32 t, int m, u8 proto) { Dgram d; d.id = id; d.src = s; d.dst = t; d.link = link; d.linkhdr = make_linkhdr(r, link); d.proto = proto; d.payload = make_upper(r, d.proto, (size_t)m * 8, s, t);
-                                                            for (int i = 0; i < m; ++i) d.fr.push_back({(u32)i * 8, 8, i + 1 < m, (u8)(60 + i), 0}); return d; };
-    std::vector<Dgram> dgs; dgs.push_back(mk(7, A, B, mx, 17)); dgs.push_back(mk(R[rel].idy, R[rel].sy, R[rel].dy, my, mx == my ? 17 : 1));
+    std::vector<Dgram> dgs; make_pair_case(r, rel, mx, my, link, dgs);
     bool reversed = rel == 6;
-    std::string ctx = std::string(reversed ? "kf=reversed-pair " : "") + "exhaustive pair " + R[rel].name + " " + show_dgram(dgs[0], 0) + " " + show_dgram(dgs[1], 1); describe_case(ctx);
-    cnt(std::string("rel:exhaustive/") + R[rel].name);
+    std::string ctx = std::string(reversed ? "kf=reversed-pair " : "") + "exhaustive pair " + PAIR_REL[rel].name + " " + show_dgram(dgs[0], 0) + " " + show_dgram(dgs[1], 1); describe_case(ctx);
+    cnt(std::string("rel:exhaustive/") + PAIR_REL[rel].name);
     World shared; shared.dgs = &dgs; shared.reversed = reversed; u64 seqno = 0;
     std::vector<int> basev; for (int i = 0; i < mx; ++i) basev.push_back(i); for (int i = 0; i < my; ++i) basev.push_back(256 + i);
     if (!run_all_orders(basev, dgs, shared, ctx, reversed, seqno)) return;
